@@ -63,7 +63,9 @@ class BridgeKernels:
         t = time.time()
         elems = [z3.BitVec("e%d" % i, 32) for i in range(n)]
         rets = [z3.BitVec("r%d" % i, 32) if method == "map" else z3.Bool("b%d" % i) for i in range(n + 1)]
-        cb = Adt("Primitive", "Function", [Adt("PrimitiveFunction", None, [Opaque("String", "callback-path"), Adt("Option", "None", [])])])
+        # the callback is a closure: its captured variables (an opaque mapping) must travel with every invocation
+        cb = Adt("Primitive", "Function", [Adt("PrimitiveFunction", None, [Opaque("String", "callback-path"),
+                                                                             Adt("Option", "Some", [Opaque("VariableMapping", "captured-variables")])])])
         cells = {RECV: gcmodels.gccell(Adt("Vec", None, [prim("Int", Sc("i32", e)) for e in elems]))}
         cells[("ctx",)] = Adt("Ctx", None, [Adt("Vec", None, [vecp(RECV), cb])] + [Opaque("ctx-field", i) for i in range(1, 6)])
         cells[("self",)] = Adt("BuiltInFunction", VARIANT[method], [])
@@ -113,12 +115,16 @@ class BridgeKernels:
                     continue
                 req = ow.value.fields[0]
                 args_vec = req.fields[3]
+                dest, cbs = req.fields[0], req.fields[1]
+                dest_ok = isinstance(dest, Adt) and "Standard" in (dest.variant, dest.ty) and isinstance(dest.fields[0], Opaque) and dest.fields[0].data == "callback-path"
+                cbs_ok = isinstance(cbs, Adt) and cbs.variant == "Some" and isinstance(cbs.fields[0], Opaque) and cbs.fields[0].data == "captured-variables"
+
                 argv = []
                 for a in args_vec.fields:
                     if not (isinstance(a, Adt) and a.variant == "Int"):
                         raise Inconclusive("callback argument %r" % (a,))
                     argv.append(a.fields[0].e)
-                calls2 = calls + [argv]
+                calls2 = calls + [(argv, dest_ok, cbs_ok)]
                 rv = Adt("ReturnValue", "Value", [prim("Int", Sc("i32", rets[i])) if method == "map" else Adt("Primitive", "Bool", [Sc("bool", rets[i])])])
                 for ot in self.ex.run(self.tm[(op, "then")], [target, rv], cells=dict(ow.cells), pc=list(ow.pc)):
                     if ot.kind == "panic":
@@ -183,7 +189,7 @@ def _items(es, subs):
 
 def render(path, subs):
     pc, kind, msg, res, calls, post = path
-    callstr = ";".join(_items(c, subs) for c in calls)
+    callstr = ";".join("%s@%s%s" % (_items(c[0], subs), "cb" if c[1] else "other", "+captured" if c[2] else "") for c in calls)
     if kind == "panic":
         return "PANIC"
     if kind == "err":
@@ -296,10 +302,17 @@ def check_summary(s, profile, qs, timeout_ms, seed, prop):
                 out.append(finding("spurious-failure", w, "list.%s fails (%s%s) although it is defined for every list" % (s.method, kind, "" if kind == "panic" else " in " + str(msg))))
             continue
         # callback protocol: once per element, in order, with the element
-        good_calls = len(calls) == s.n and all(len(c) == 1 for c in calls)
-        w = ask(z3.And(pcz, z3.Not(z3.And(*[c[0] == e for c, e in zip(calls, s.elems)]) if (good_calls and s.n) else z3.BoolVal(good_calls))), lab + ":callback-once-per-element")
+        good_calls = len(calls) == s.n and all(len(c[0]) == 1 for c in calls)
+        w = ask(z3.And(pcz, z3.Not(z3.And(*[c[0][0] == e for c, e in zip(calls, s.elems)]) if (good_calls and s.n) else z3.BoolVal(good_calls))), lab + ":callback-once-per-element")
         if w:
             out.append(finding("wrong-callback-sequence", w, "the callback is not invoked exactly once per element, in order, with that element"))
+        if not all(c[1] and c[2] for c in calls):
+            w = ask(pcz, lab + ":callback-request")
+            if w:
+                out.append(finding("wrong-callback-request", w, "a callback invocation does not name the callback function together with its captured variables"))
+        else:
+            qs.obligations += 1
+            qs.discharged += 1
         ok_res = res is not None and res[0] != RECV
         w = ask(z3.And(pcz, z3.Not(z3.Or(*[z3.And(c, _seq_eq(res[1], want)) for c, want in exp]) if ok_res else z3.BoolVal(False))), lab + ":result")
         if w:
